@@ -20,7 +20,7 @@ from ..sched import run_many_scheduled
 
 ID = "C18"
 LEVEL = "exploration"
-BUDGET = {"quick": 320, "thorough": 10000}
+BUDGET = {"quick": 800, "thorough": 10000}
 STEPS = {"quick": 14, "thorough": 30}
 SHARDS = {"quick": 8, "thorough": 16}
 RULE = (
@@ -65,7 +65,7 @@ def _program(draw):
         n["params"] = [p for p in n["params"] if p not in n["defaults"]] + [p for p in n["params"] if p in n["defaults"]]
     nested = None
     if prob(draw, 0.5):
-        nested = {"a": draw(st.integers(0, len(topo) - 1)), "len": draw(st.integers(1, 3)), "inner_bind": draw(st.booleans()), "select_out": draw(st.booleans())}
+        nested = {"a": draw(st.integers(0, len(topo) - 1)), "len": draw(st.integers(1, 3)), "inner_bind": prob(draw, 0.7), "select_out": draw(st.booleans())}
         # Inside a nested graph a defaulted input is resolved ONCE at the wrapper and the same object is handed to every inner
         # consumer, so two inner nodes that both mutate it see each other's marks in completion order (observation O1 in
         # DESIGN.md section 5; a schedule effect inside one run, not a leak between runs): keep one mutating consumer per wrapper.
@@ -107,6 +107,7 @@ class Prog:
             nodes = [dict(x) for x in topo[:a]] + [wrapper] + [dict(x) for x in topo[b:]]
             if spec["nested"]["inner_bind"]:
                 inner_bound = {p: bound_objs[p] for p in bound_objs if p in s_inputs}
+                self.inner_bound_names = set(inner_bound)
             if spec["nested"]["select_out"]:
                 outside = [o for x in topo[:a] + topo[b:] for o in x["outs"]]
                 if outside:
@@ -138,12 +139,16 @@ class Prog:
         g = self.graph
         return {p: ("in", p, variant) for p in g.inputs.required}
 
-    def twin_form(self, variant, kind):
-        """First run of a freshly built copy of the same program."""
+    def twin_form(self, variant, kind, values=None, override=()):
+        """First run of a freshly built copy of the same program (optionally with explicit values; `override` names bound
+        parameters that are ALSO supplied at run time with an equal-but-distinct object)."""
         ctx = Ctx()
         bound = {p: {"bound": p, "idx": self.idx, "payload": []} for p in self.spec["bind"]}
         g = self._build(ctx, bound)
-        out = (run_sync if kind == "sync" else run_async)(g, self.values(variant))
+        vals = dict(values) if values is not None else self.values(variant)
+        for p in override:
+            vals[p] = copy.deepcopy(bound[p])
+        out = (run_sync if kind == "sync" else run_async)(g, vals)
         return _form(out, ctx)
 
 
@@ -182,8 +187,8 @@ class State:
     def _pick(self, i):
         return self.progs[i % len(self.progs)] if self.progs else None
 
-    def _after_run(self, pr, out, variant, kind, tag, caller=None, caller_snapshot=None, provided=None):
-        want = pr.twin_form(variant, kind)
+    def _after_run(self, pr, out, variant, kind, tag, caller=None, caller_snapshot=None, provided=None, override=()):
+        want = pr.twin_form(variant, kind, override=override)
         got = _form(out, pr.ctx)
         if got != want:
             what = "status" if got[0] != want[0] else ("values" if got[1] != want[1] else "invocations")
@@ -196,6 +201,9 @@ class State:
             if n is None:
                 continue
             for pos, pname in enumerate(n["params"]):
+                if pname in override and caller is not None and raw[pos] is not caller[pname]:
+                    raise Violation("c18.runtime_value_replaced", f"[{tag}] node {fid} did not receive the caller's object for {pname!r} (an object equal to, but distinct from, the one bound inside the nested graph): "
+                                    f"it received {'the bound object' if raw[pos] is pr.bound_objs[pname] else 'another object'}", nested=bool(pr.spec["nested"]))
                 if pname in pr.bound_objs and pname not in (provided if provided is not None else (caller or {})):
                     if raw[pos] is not pr.bound_objs[pname]:
                         raise Violation("c18.bound_value_copied", f"[{tag}] node {fid} received {type(raw[pos]).__name__} for bound parameter {pname!r} which is not the bound object itself (equal={raw[pos] == pr.bound_objs[pname]})",
@@ -213,6 +221,15 @@ class State:
             return
         kind = op["kind"]
         vals = pr.values(op["variant"])
+        override = ()
+        if op.get("override_equal") and pr.bound_objs:
+            # a run-time value that EQUALS the bound object but is another object: the caller's object is what the node gets
+            names = sorted(pr.bound_objs)
+            inner = sorted(getattr(pr, "inner_bound_names", ()))  # prefer a name bound INSIDE the nested graph
+            names = inner or names
+            override = (names[op["override_equal"] % len(names)],)
+            for p_ in override:
+                vals[p_] = copy.deepcopy(pr.bound_objs[p_])
         snap = dict(vals)
         pr.ctx.reset()
         from hypergraph import SyncRunner
@@ -223,7 +240,47 @@ class State:
             out = run_sync(pr.graph, vals, runner=SyncRunner())
         else:
             out = run_async(pr.graph, vals, runner=self.asyn)
-        self._after_run(pr, out, op["variant"], "sync" if kind.startswith("sync") else "async", f"{kind} variant {op['variant']}", caller=vals, caller_snapshot=snap)
+        self._after_run(pr, out, op["variant"], "sync" if kind.startswith("sync") else "async", f"{kind} variant {op['variant']}" + (f" override {override}" if override else ""),
+                        caller=vals, caller_snapshot=snap, override=override)
+
+    def op_map(self, op):
+        """runner.map over one required input (two items), with or without clone: every item equals the first run of a pristine
+        copy on that item, and bound objects still arrive by identity (bindings are shared intentionally, never copied)."""
+        pr = self._pick(op["p"])
+        if pr is None:
+            return
+        base = pr.values(op["variant"])
+        names = sorted(base)
+        if not names:
+            return
+        mapped = names[op["k"] % len(names)]
+        items = [("in", mapped, op["variant"]), ("in", mapped, op["variant"] + 2)]
+        vals = {**base, mapped: list(items)}
+        pr.ctx.reset()
+        import asyncio
+
+        kw = {"map_over": mapped, "clone": bool(op["clone"])}
+        try:
+            res = asyncio.run(self.asyn.map(pr.graph, vals, **kw)) if op["async"] else self.sync.map(pr.graph, vals, **kw)
+        except Exception as e:  # noqa: BLE001
+            raise Violation("c18.map_raised", f"[map over {mapped} clone={op['clone']}] raised {type(e).__name__}: {str(e)[:200]}") from None
+        tag = f"{'async' if op['async'] else 'sync'} map over {mapped} clone={bool(op['clone'])} variant {op['variant']}"
+        for it, r in zip(items, res):
+            want = pr.twin_form(op["variant"], "async" if op["async"] else "sync", values={**base, mapped: it})
+            got = (r.status.value, repr(sorted((k, repr(freeze(v))) for k, v in (r.values or {}).items())), None if r.error is None else type(r.error).__name__)
+            if got != want[:3]:
+                raise Violation("c18.run_depends_on_history", f"[{tag}] item {it} gave {str(got)[:500]}; the first run of a pristine copy on that item gives {str(want[:3])[:500]}", what="map_item", nested=bool(pr.spec["nested"]))
+        topo = pr.spec["topo"]
+        for fid, raw in pr.ctx.raw_args:
+            n = next((x for x in topo if x["name"] == fid), None)
+            if n is None:
+                continue
+            for pos, pname in enumerate(n["params"]):
+                if pname in pr.bound_objs and pname not in vals and raw[pos] is not pr.bound_objs[pname]:
+                    raise Violation("c18.bound_value_copied", f"[{tag}] node {fid} received {type(raw[pos]).__name__} for bound parameter {pname!r} which is not the bound object itself (equal={raw[pos] == pr.bound_objs[pname]})",
+                                    nested=bool(pr.spec["nested"]))
+        pr.runs += 1
+        self.second_runs += 1
 
     def op_run_kwargs(self, op):
         """values dict + keyword inputs: the dict the caller owns must not be written to."""
@@ -342,9 +399,14 @@ def machine(tier, ev, holder, guarded):
         def add(self, spec):
             self._do({"op": "add", "spec": spec})
 
-        @rule(p=st.integers(0, 5), kind=st.sampled_from(["sync_shared", "sync_shared", "sync_fresh", "async_shared"]), variant=st.integers(0, 1))
-        def run(self, p, kind, variant):
-            self._do({"op": "run", "p": p, "kind": kind, "variant": variant})
+        @rule(p=st.integers(0, 5), kind=st.sampled_from(["sync_shared", "sync_shared", "sync_fresh", "async_shared"]), variant=st.integers(0, 1),
+              override_equal=st.sampled_from([0, 0, 0, 1, 2, 3]))
+        def run(self, p, kind, variant, override_equal):
+            self._do({"op": "run", "p": p, "kind": kind, "variant": variant, "override_equal": override_equal})
+
+        @rule(p=st.integers(0, 5), variant=st.integers(0, 1), k=st.integers(0, 5), clone=st.booleans(), a=st.booleans())
+        def map(self, p, variant, k, clone, a):
+            self._do({"op": "map", "p": p, "variant": variant, "k": k, "clone": clone, "async": a})
 
         @rule(p=st.integers(0, 5), variant=st.integers(0, 1), k=st.integers(0, 5), a=st.booleans())
         def run_kwargs(self, p, variant, k, a):
